@@ -694,8 +694,10 @@ func (i *Snapshot) readSegmentSnapshot(br *bufio.Reader) (bytesRead int64, ss *s
 }
 
 func readVarLenString(r *bufio.Reader) (n int, str string, err error) {
+	// fewer bytes than the longest varint may be left: not an error as long
+	// as the length and the string itself are all there
 	peek, err := r.Peek(binary.MaxVarintLen64)
-	if err != nil {
+	if err != nil && err != io.EOF {
 		return n, "", err
 	}
 	strLen, uVarRead := binary.Uvarint(peek)
